@@ -48,7 +48,10 @@ def _runs(svh, path, n, par=4):
     for i in range(0, n, par):
         # the replicas differ in the ProcessProposal calls they see before each FinalizeBlock (pp=0 none: block replay,
         # 1 the decided block, 2 a proposal of another round first): the result must not depend on them
-        ps = [subprocess.Popen([svh, "-replay", "run=%s,pp=%d" % (path, (i + j) % 3), "determinism"], stdout=subprocess.PIPE, stderr=subprocess.DEVNULL)
+        # ... and in the node's environment: the process time zone (time.Local) must not reach state, results or events
+        zones = ["UTC", "Asia/Tokyo", "America/New_York", "Pacific/Chatham"]
+        ps = [subprocess.Popen([svh, "-replay", "run=%s,pp=%d" % (path, (i + j) % 3), "determinism"], stdout=subprocess.PIPE, stderr=subprocess.DEVNULL,
+                               env=dict(os.environ, TZ=zones[(i + j) % len(zones)]))
               for j in range(min(par, n - i))]
         for p in ps:
             outs.append(p.communicate()[0].decode().splitlines())
